@@ -227,24 +227,40 @@ func NewMatchField[Int constraints.Integer | *big.Int | ~[]byte, Mask constraint
 	if err != nil {
 		return nil, err
 	}
-	value := conv(data)
+	// conv hands back the caller's own *big.Int: work on a copy
+	value := new(big.Int).Set(conv(data))
+	if value.Sign() < 0 {
+		return nil, fmt.Errorf("invalid data: negative value")
+	}
 	length := field.Length
 	if len(mask) > 0 {
 		var maskInt *big.Int
 		length /= 2
+		if mask[0] < 0 || (len(mask) > 1 && mask[1] < 0) {
+			return nil, fmt.Errorf("invalid mask: negative offset or width")
+		}
+		fieldBits := uint(length) * 8
+		start := uint(mask[0])
+		// with a single argument the window is as wide as the data
+		nBits := uint(value.BitLen())
+		if len(mask) > 1 {
+			nBits = uint(mask[1])
+		}
+		if start > fieldBits || nBits > fieldBits || start+nBits > fieldBits {
+			return nil, fmt.Errorf("invalid mask: bits %d..%d are outside the %d-bit field", start, start+nBits, fieldBits)
+		}
 		if len(mask) != 3 || mask[2] == 1 {
-			value = value.Lsh(value, uint(mask[0]))
+			value = value.Lsh(value, start)
 		}
-		if len(mask) == 1 {
-			maskInt = rangeMask(uint(mask[0]), uint(value.BitLen()))
-		} else {
-			maskInt = rangeMask(uint(mask[0]), uint(mask[1]))
-		}
+		maskInt = rangeMask(start, nBits)
 		maskValue := new(big.Int).And(value, maskInt)
 		if value.Cmp(maskValue) != 0 {
 			return nil, fmt.Errorf("invalid mask and data")
 		}
 		field.Mask = big2byte(maskInt, length)
+	}
+	if value.BitLen() > int(length)*8 {
+		return nil, fmt.Errorf("invalid data: %d bits do not fit the %d-byte field", value.BitLen(), length)
 	}
 	field.Value = big2byte(value, length)
 	return field, nil
